@@ -17,8 +17,13 @@ RULE = ("per generated class (DeclGen over the whole field vocabulary incl. unty
         "and on single-point corruptions, Serializer / serialize() / compact, <field>.serialize per field, "
         "create_serializer + .serialize(), Omit/Pick/Extend/Partial/AllFieldsRequired with a names list, "
         "structure_to_schema, schema_to_struct_code, convert_dict over 3 documents x mapping histories (Constant, "
-        "Deleted, rename, nested ._mapper, FunctionCall); plus one directed witness case per (operation, table site) "
-        "(~470).  Per case on the real code: deep snapshot of every argument before/after (failing calls included); "
+        "Deleted, rename, nested ._mapper, FunctionCall); multi-field wrappers keep ALL their options (at most one per "
+        "container value class; the model picks per value / per element), 20% of the classes are ImmutableStructures "
+        "(modelled: `owned`); the trusted short cuts (direct_trusted_mapping via Deserializer / deserialize_structure on "
+        "every generated class and on 7 hand-built class shapes with enum.Enum-backed Enum fields, nested classes, arrays "
+        "of nested classes x 4 mappers; from_trusted_data mapping / kwargs; trust_supplied_values: argument snapshots only); "
+        "one direct probe per public entry point outside the operation streams (harness/suites/alias_api.py); plus one "
+        "directed witness case per (operation, table site) (~560).  Per case on the real code: deep snapshot of every argument before/after (failing calls included); "
         "`is`-identity comparison of the source object graph with the produced/kept graph; poke oracle = every native "
         "mutator (introspected from the runtime type: list/dict/deque/set members found by probing the native type, "
         "Structure setattr/del) on every mutable object reachable from the returned value (output ops) or from the "
@@ -38,6 +43,9 @@ ASSUMPTIONS = [
     "when its fuel runs out, like RecursionError)",
     "default configuration (defensive_copy_on_get on, no trusted instantiation, uniqueness features off); mappers: "
     "Serializer/Deserializer custom mappers are not generated here (suite `mapper` snapshots them for C07)",
+    "which option of a multi-field wrapper takes a value is decided by the model from the value's shape (Python container "
+    "class / scalar class); value constraints of the options are not modelled, so generated wrappers keep at most one option "
+    "per container value class (sequence-like, dict-like) and no NotField / Anything option",
     "nested classes of generated declarations are given the FastSerializable mixin by the harness before fast "
     "serialization (dump.build_class builds plain Structures)",
     "PYTHONHASHSEED=0",
